@@ -23,6 +23,9 @@ Shape(name) ==
     [] name = "leave3ps" -> [type |-> "m.room.member", ms |-> "leave", key |-> TRUE, c |-> {"membership", "third_party_invite"}, tpi |-> "obj", tk |-> {"signed", "display_name"}]
     [] name = "ban3pe" -> [type |-> "m.room.member", ms |-> "ban", key |-> TRUE, c |-> {"membership", "third_party_invite"}, tpi |-> "obj", tk |-> {}]
     [] name = "rjoin" -> [type |-> "m.room.member", ms |-> "join", key |-> TRUE, c |-> {"membership", "join_authorised_via_users_server", "displayname"}, tpi |-> "none", tk |-> {}]
+    \* the authorising-user key on events that are not joins: no further signature is demanded
+    [] name = "leavej" -> [type |-> "m.room.member", ms |-> "leave", key |-> TRUE, c |-> {"membership", "join_authorised_via_users_server", "reason"}, tpi |-> "none", tk |-> {}]
+    [] name = "messagej" -> [type |-> "m.room.message", ms |-> "", key |-> FALSE, c |-> {"body", "msgtype", "join_authorised_via_users_server"}, tpi |-> "none", tk |-> {}]
     [] name = "create" -> [type |-> "m.room.create", ms |-> "", key |-> TRUE, c |-> {"creator", "room_version", "m.federate", "predecessor"}, tpi |-> "none", tk |-> {}]
     [] name = "pl" -> [type |-> "m.room.power_levels", ms |-> "", key |-> TRUE, c |-> {"ban", "events", "invite", "users", "notifications", "kick"}, tpi |-> "none", tk |-> {}]
     [] name = "jr" -> [type |-> "m.room.join_rules", ms |-> "", key |-> TRUE, c |-> {"join_rule", "allow", "x.unspec"}, tpi |-> "none", tk |-> {}]
@@ -30,7 +33,7 @@ Shape(name) ==
     [] name = "redaction" -> [type |-> "m.room.redaction", ms |-> "", key |-> FALSE, c |-> {"redacts", "reason"}, tpi |-> "none", tk |-> {}]
     [] name = "hv" -> [type |-> "m.room.history_visibility", ms |-> "", key |-> TRUE, c |-> {"history_visibility", "x.unspec"}, tpi |-> "none", tk |-> {}]
     [] name = "message" -> [type |-> "m.room.message", ms |-> "", key |-> FALSE, c |-> {"body", "msgtype"}, tpi |-> "none", tk |-> {}]
-Shapes == {"join", "invite", "invite3p", "join3p", "leave3ps", "ban3pe", "rjoin", "create", "pl", "jr", "aliases", "redaction", "hv", "message"}
+Shapes == {"join", "invite", "invite3p", "join3p", "leave3ps", "ban3pe", "rjoin", "leavej", "messagej", "create", "pl", "jr", "aliases", "redaction", "hv", "message"}
 
 TopKeysOf(name, v) == TopBase \cup (IF Shape(name).key THEN {"state_key"} ELSE {})
                       \cup (IF v <= 2 THEN {"event_id"} ELSE {})
@@ -39,7 +42,7 @@ Event(name, v) ==
   LET sh == Shape(name) IN
   [ type |-> sh.type, top |-> [k \in TopKeysOf(name, v) |-> 0], hascontent |-> TRUE, content |-> [k \in sh.c |-> 0],
     tpikind |-> sh.tpi, tpi |-> [k \in sh.tk |-> 0],
-    membership |-> sh.ms, senderServer |-> SA, idServer |-> SB, jauthServer |-> IF name = "rjoin" THEN SC ELSE "" ]
+    membership |-> sh.ms, senderServer |-> SA, idServer |-> SB, jauthServer |-> IF name \in {"rjoin", "leavej", "messagej"} THEN SC ELSE "" ]
 
 \* keys whose mutation would change which servers must sign or which redaction table applies are left alone
 Structural == {"type", "sender", "event_id", "membership:content", "join_authorised_via_users_server", "third_party_invite"}
@@ -74,6 +77,7 @@ After ==
 
 Required == ServersToCheck(Event(name, v), v)
 Expected == IF signers = {} THEN "err" ELSE Verify(After.e, After.sigs, v)     \* never hashed: no `hashes`
+ExpectedAnyEvent == IF signers = {} THEN "err" ELSE VerifyAnyEvent(After.e, After.sigs, v)
 
 \* ---- the sentences of C03 as theorems of the model
 Covered == Required \subseteq signers
@@ -97,7 +101,7 @@ Thm_DropRequired == (phase = 1 /\ step[1] = "dropsig" /\ signers # {} /\ Covered
 Emit == phase = 1 =>
   LET e0 == Event(name, v)  se == Signed.e IN
   PrintT(<<"CASE", ToJson([ v |-> v, shape |-> name, top |-> DOMAIN e0.top, content |-> DOMAIN e0.content, tpi |-> DOMAIN e0.tpi,
-      signers |-> signers, step |-> step, required |-> Required, expected |-> Expected,
+      signers |-> signers, step |-> step, required |-> Required, expected |-> Expected, expected_any_event |-> ExpectedAnyEvent,
       \* C05: pre-image key sets of the signed, unmutated event
       chtop |-> DOMAIN ContentHashPre(se).top,
       rhtop |-> DOMAIN RefHashPre(se, v).top, rhcontent |-> DOMAIN RefHashPre(se, v).content,
